@@ -333,6 +333,8 @@ func c01(p *core.Program, r *core.Report) {
 	r.Rule("R4", "word stores in run loops: in a loop of package roaring that works on run bounds and both stores (=) and accumulates (|=) into words of the same bitmap, a plain store is reached, for every ordering of the word's first value W, its last value E = W+63 and the run's bounds, only when W >= run.start and E <= run.last (the word lies wholly inside the run); any other word may already hold bits of the previous run")
 	r.Rule("R5", "counts deferred by an in-place union are not trusted: same obligation as C02-R5 -- every caller of Container.unionInPlace recounts before the result's N() is read or the function returns, and while the recount is deferred to the end (Containers.Repair) no condition takes the N() of a container loaded from the collection for an upper bound (N == 0, N < k): a stale count is a lower bound only")
 	c02CountRepaired(p, r)
+	r.Rule("R6", "the carry is conserved: in a loop of package roaring that carries the second result of a shift kernel into the next iteration through a bool flag (Bitmap.Shift), every path of an iteration entered with the flag set applies Container.add(0) to the container being built, or puts a container at <key>+1, before the flag is reassigned")
+	c01CarryIsConserved(p, r)
 	r.Rule("R3", "interval-case coverage: Container.runCountRange is abstractly executed for every weak ordering of {iv.start, iv.last, start, end} (iv.start <= iv.last, start <= end); whenever the run [iv.start, iv.last] overlaps [start, end) the iteration must add to the count or return")
 	r.NotDecided = "that any kernel computes the right set or count for every input; iterator Seek/Next, Max/Min, Flip, OffsetRange arithmetic; array/bitmap/run conversion thresholds"
 	rp := p.Pkg("roaring")
